@@ -1,4 +1,5 @@
 import LyModel.XsdRe.Parse
+import LyModel.XsdRe.ToPcre
 import LyModel.XsdRe.Rewrite
 /-! driver ops of component `xsdre` (C18) -/
 namespace LyModel.XsdRe.Drv
@@ -36,7 +37,7 @@ def handle (op : String) (args : List String) : String :=
         | none => "err BadUtf8Str"
         | some cs => "ok " ++ bits (inv == "1") [pat.toRegex.matches cs]
     | _, _ => "err BadHex"
-  | "grid", [ph, inv, ah, ml] =>
+  | "grid", ph :: inv :: ah :: ml :: _ =>
     match Hex.dec ph, Hex.dec ah, ml.toNat? with
     | some p, some a, some n =>
       match parseXsd p, decodeUtf8 a with
@@ -66,6 +67,14 @@ def handle (op : String) (args : List String) : String :=
       | .ok t => "ok " ++ Hex.enc t
       | .error e => "err " ++ e.name
     | none => "err BadHex"
+  | "topcre", [ph] =>
+    match Hex.dec ph with
+    | some p =>
+      match parseXsd p with
+      | .error e => "err " ++ e.name
+      | .ok pat => "ok " ++ Hex.enc (bytesOfString pat.toPcre)
+    | none => "err BadHex"
+  | "opts", _ => "ok " ++ ",".intercalate (Generated.UBlocks.compileOpts.toArray.qsort (· < ·)).toList
   | "features", [ph] =>
     match Hex.dec ph with
     | some p =>
